@@ -3,6 +3,10 @@
 
 Generated client programs x build matrix, out-of-band observation by a non-LTO
 spy TU, plain-memset positive control per victim.  See DESIGN.md "### C18".
+Victims either hand their buffer address to the spy (stack/heap/static) or keep
+it to themselves (stack-noescape: the spy finds the dead frame by a stack scan;
+only these can show an erase the compiler is allowed to drop once the library
+is LTO'd into the program).
 
   run.py [--tier quick|thorough] [--replay FILE] [--keep] [-v]
 env: VERIF_SEED (default 1), VERIF_TIER, VERIF_SRC (tree under test, default /repo)
@@ -528,7 +532,8 @@ def main():
             if v["cls"] == "pass-nontrivial" or (v["cls"] == "violation" and v["control"]["residual"] > 0 and r["config"]["opt"] != "-O0"):
                 pc["nontrivial"] += 1
                 distinct.add(ident)
-                if len(samples) < 8 and (len(samples) < 4 or v["storage"] != "stack"):
+                if ((len(samples) < 8 and (len(samples) < 4 or v["storage"] != "stack")) or
+                        (v["storage"] == NOESC and r["config"]["link"] == "lto" and sum(1 for x in samples if x["victim"]["storage"] == NOESC) < 3)):
                     samples.append(dict(config=cn, victim={k: vp[k] for k in ("fn", "storage", "shape", "nbytes", "dmax", "lead", "value", "nulpos")},
                                         observed=v["r"], control_observed=v["control"], verdict=v["cls"]))
             elif v["cls"] == "pass-void-control":
@@ -545,17 +550,33 @@ def main():
     for v in allv:
         if v["cls"] == "pass-nontrivial":
             by_fn[v["fn"]] = by_fn.get(v["fn"], 0) + 1
+    nesc = len([v for v in programs[0] if v["storage"] == NOESC and not v["control"]])
+    esc = len([v for v in programs[0] if v["storage"] != NOESC and not v["control"]])
+    ne_nontrivial = by_storage.get(NOESC, {}).get("pass-nontrivial", 0)
+    ne_nontrivial_lto = len([v for r in results if r["config"]["link"] == "lto" for v in r["verdicts"]
+                             if v["storage"] == NOESC and v["cls"] == "pass-nontrivial"])
     cov = dict(
         evaluations=len(allv),
         distinct_nontrivial=len(distinct),
         rule=("a case is one generated victim (erase function, storage class, code shape, n, dmax, offset/alignment, fill value) in one build "
-              "config (compiler, -O level, separate objects or library sources LTO'd into the program); it is NON-TRIVIAL iff the config "
-              "optimises (>= -O1) and the victim's plain-memset twin in the same binary was observed with residual secret bytes, i.e. the "
-              "compiler demonstrably removes a non-secure erase there; distinct = distinct (config, function, storage, shape, n, dmax, offset, value)"),
+              "config (compiler, -O level, separate objects or library sources LTO'd into the program). Two kinds of victim: ESCAPING "
+              "(storage stack/heap/static: the buffer address is handed to the non-LTO spy TU, which fills it and reads the n bytes back "
+              "after the victim died) and NON-ESCAPING (storage stack-noescape: a local array the victim fills itself from a run-time "
+              "16-byte pattern and reads back, whose address is passed to the erase function only; the spy finds the dead frame by "
+              "scanning the 4096 stack bytes below the caller for runs of >= 8 pattern bytes). For both kinds a case is NON-TRIVIAL iff "
+              "the config optimises (>= -O1) and the victim's plain-memset twin in the same binary was observed with residual secret "
+              "bytes, i.e. the compiler demonstrably removes a non-secure erase there (for non-escaping victims additionally both twins' "
+              "read-back checksums must have arrived, i.e. the buffer was really filled and used); "
+              "distinct = distinct (config, function, storage, shape, n, dmax, offset, value)"),
         samples=samples if samples else [dict(note="no non-trivial case this run")],
         exhaustive=False,
         exhaustive_note="sampled: %d generated program(s) x %d build configs; nothing is enumerated completely" % (nprog, len(configs)),
         programs=nprog, victims_per_program=len(programs[0]) // 2, controls_per_program=len(programs[0]) // 2,
+        victims_per_program_escaping=esc, victims_per_program_nonescaping=nesc,
+        controls_per_program_escaping=esc, controls_per_program_nonescaping=nesc,
+        nontrivial_escaping=cls_hist.get("pass-nontrivial", 0) - ne_nontrivial, nontrivial_nonescaping=ne_nontrivial,
+        nontrivial_nonescaping_lto=ne_nontrivial_lto,
+        trivial_void_controls_nonescaping=by_storage.get(NOESC, {}).get("pass-void-control", 0),
         configs=len(configs), per_config=per_cfg, class_histogram=cls_hist, by_storage=by_storage,
         nontrivial_by_function=by_fn,
         trivial_void_controls=cls_hist.get("pass-void-control", 0), unobservable=cls_hist.get("unobservable", 0),
@@ -567,9 +588,13 @@ def main():
         "x86-64 Linux, glibc malloc (a freed tcache/unsorted chunk keeps its bytes beyond the first 32), gcc 12 and clang 14 only",
         "'any optimisation level' is the matrix {gcc,clang} x {-O0,-O1,-O2,-O3,-Os} x {separately compiled objects, library sources compiled into the program with -flto}",
         "the spy TU is compiled -O0 without LTO and copies the dead buffer immediately after the victim returns, with no intervening call",
+        "non-escaping stack victims: the dead frame is found without its address, by copying the 4096 bytes directly below a 64 KiB alloca pad of the (-O0, non-LTO) caller right after the victim returned (frames and red zone of the victim lie there) and counting runs of >= 8 consecutive bytes of that victim's own 16-byte pattern (16 distinct non-zero bytes, fresh per victim, kept in volatile static storage only); erasures that leave fewer than 8 consecutive pattern bytes are invisible to this channel (the escaping victims compare every byte), as are copies the compiler keeps in registers",
         "file-static victims: the address escapes to the spy, so compilers keep even a plain memset; those cases are checked but counted as void controls, not as non-trivial",
         "memzero_s delegates to glibc explicit_bzero when HAVE_EXPLICIT_BZERO is configured; that libc code is outside LTO",
     ]
+    if nesc and not broken and not timeouts and ne_nontrivial_lto == 0:
+        lines.append("BROKEN: no non-escaping victim's control showed residual data in any LTO config (the stack-scan channel is dead)")
+        broken = [dict(err="stack-scan channel dead", config=dict(cc="-", opt="-", link="-"))]
     if len(distinct) < 2 and not broken:
         lines.append("BROKEN: fewer than 2 distinct non-trivial cases (controls never show residual data)")
         broken = broken or [dict(err="no non-trivial cases", config=dict(cc="-", opt="-", link="-"))]
@@ -584,9 +609,11 @@ def main():
     for r in broken:
         if "status" in r:
             print("BROKEN: config %s: %s" % (cfg_name(r["config"]), r["err"]))
-    print("%s %s: %d configs x %d program(s), %d victim evaluations, %d distinct non-trivial, %d void controls, %d unobservable, "
+    print("%s %s: %d configs x %d program(s) of %d escaping + %d non-escaping victims, %d victim evaluations, %d distinct non-trivial "
+          "(%d non-escaping evaluations non-trivial, %d of them LTO), %d void controls, %d unobservable, "
           "%d known-finding hits, %d new violation keys, %.1fs" %
-          (PROP, a.tier, len(configs), nprog, len(allv), len(distinct), cov["trivial_void_controls"], cov["unobservable"],
+          (PROP, a.tier, len(configs), nprog, esc, nesc, len(allv), len(distinct), ne_nontrivial, ne_nontrivial_lto,
+           cov["trivial_void_controls"], cov["unobservable"],
            sum(known_hits.values()), nviol, time.time() - t0))
     if not a.keep:
         shutil.rmtree(rundir, ignore_errors=True)
